@@ -193,18 +193,18 @@ func hashStrings(xs []string) string {
 // Checks registry
 
 type Check struct {
-	ID       string
-	Level    string // exploration | fault_enumeration
-	Build    string // maporder | lockstep
-	Variant  string // distinguishes several checks of one property on one build
+	ID      string
+	Level   string // exploration | fault_enumeration
+	Build   string // maporder | lockstep
+	Variant string // distinguishes several checks of one property on one build
 	// Statistical: the interleaving is left to the Go runtime (seeded preemption under the race
 	// detector): not digest-deterministic; replay re-executes the case until the violation shows
 	Statistical bool
-	Rule     string // non-triviality / distinctness rule for the evidence file
-	Real     []string
-	Stub     []string
-	Assume   []string
-	Profiles []string
+	Rule        string // non-triviality / distinctness rule for the evidence file
+	Real        []string
+	Stub        []string
+	Assume      []string
+	Profiles    []string
 	// Gen generates case i of a batch. tier is quick|thorough.
 	Gen func(r *Rand, tier string, profile string) *Case
 	// Run executes a case. It must be a pure function of the case and the code.
